@@ -142,6 +142,10 @@ def run_modes(ck, scen, tier):
         for extra in ([], ["P %d 1" % sc.P_LDM, "P %d 20" % sc.P_WLOG], ["P 500 1"]):
             cont.append(["CNEW", "P %d %d" % (sc.P_WORKERS, nw), "P %d 1" % sc.P_JOB, "P %d 1" % sc.P_LEVEL, "P %d 1" % sc.P_CSUM] + extra +
                         ["SRC text 2700000 %d" % (nw + len(extra)), "C 0 1048576 1048576 *", "C 2 0 1048576 *", "PREFIX end", "DONE"])
+    # an aborted frame (session reset while a job is prepared but not yet accepted by the pool), then reuse of the context
+    for nw in (1, 2):
+        cont.append(["CNEW", "P %d %d" % (sc.P_WORKERS, nw), "P %d 1" % sc.P_JOB, "P %d 1" % sc.P_LEVEL, "SRC text 3000000 5", "C 0 600000 1048576", "C 0 600000 1048576",
+                     "CRESET", "SRC text 1500000 6", "C 0 1048576 1048576 *", "C 2 0 1048576 *", "PREFIX end", "DONE"])
     npct = 40 if tier == "quick" else 500
     bad_pct = 0
     for ci, s in enumerate(cont):
